@@ -270,6 +270,8 @@ func (in *Interp) call(fnv Value, args []Value, caller *frame, site ssa.Instruct
 			panic(goPanic{val: "invalid memory address or nil pointer dereference (nil func call)", where: in.where(site)})
 		}
 		return in.callFn(f.fn, args, f.bind, caller, site)
+	case *NativeFn:
+		return f.f(in, args)
 	}
 	panic(fmt.Sprintf("call of %T", fnv))
 }
